@@ -10,6 +10,7 @@ from collections import defaultdict
 from ..graph.graph import Node
 from ..graph.maskable_graph import MaskableGraph
 from ..arch.registers import Register
+from ..utils.collections import OrderedSet
 
 
 class InterferenceGraphNode(Node):
@@ -17,8 +18,8 @@ class InterferenceGraphNode(Node):
 
     def __init__(self, graph, vreg):
         super().__init__(graph)
-        self.temps = {vreg}
-        self.moves = set()
+        self.temps = OrderedSet([vreg])
+        self.moves = OrderedSet()
         self.reg = vreg if vreg.is_colored else None
         self.reg_class = type(vreg)
 
@@ -49,19 +50,35 @@ class InterferenceGraph(MaskableGraph):
 
     def calculate_interference(self, flowgraph):
         """Construct interference graph"""
+        # The liveness sets are plain sets of registers (hashed by identity).
+        # Visit their members in order of first appearance in the code, such
+        # that the order of the nodes and edges of the graph, and hence the
+        # register assignment, does not depend on set iteration order.
+        position = {}
         for n in flowgraph:
             for ins in n.instructions:
-                # ins.live_out |= ins.
-                for tmp in ins.live_in:
+                for reg in ins.used_registers:
+                    position.setdefault(reg, len(position))
+                for reg in ins.defined_registers:
+                    position.setdefault(reg, len(position))
+
+        def in_order(registers):
+            return sorted(registers, key=position.__getitem__)
+
+        for n in flowgraph:
+            for ins in n.instructions:
+                for tmp in in_order(ins.live_in):
                     self.get_node(tmp)
 
                 # Live out and zero length defined variables:
-                live_and_def = ins.live_out | ins.kill
+                live_and_def = in_order(ins.live_out | ins.kill)
 
                 # Add interfering edges:
                 for tmp in live_and_def:
                     n1 = self.get_node(tmp)
-                    for tmp2 in live_and_def - {tmp}:
+                    for tmp2 in live_and_def:
+                        if tmp2 is tmp:
+                            continue
                         n2 = self.get_node(tmp2)
                         self.add_edge(n1, n2)
 
@@ -106,7 +123,7 @@ class InterferenceGraph(MaskableGraph):
         """Combine n and m into n and return n"""
         # Copy associated moves and temporaries into n:
         n.temps |= m.temps
-        n.moves.update(m.moves)
+        n.moves |= m.moves
 
         # Update local temp map:
         for tmp in m.temps:
